@@ -2,6 +2,7 @@ package rules
 
 import (
 	"fmt"
+	"go/token"
 	"go/types"
 
 	"golang.org/x/tools/go/ssa"
@@ -305,35 +306,31 @@ func c11EmptyVersion(c *Ctx) {
 		return
 	}
 	found := false
-	for _, call := range an.Calls(co) {
-		if !an.CalleeIs(call, kvPkg, "DB", "StartDiff") {
-			continue
+	startsDiff := false
+	sc := c.Scope(co)
+	for _, call := range sc.Calls() {
+		if an.CalleeIs(call, kvPkg, "DB", "StartDiff") {
+			startsDiff = true
 		}
-		other := call.Common().Args[len(call.Common().Args)-1] // from.Root
-		// find the *KV value it is loaded from
-		var kvVal ssa.Value
-		if ld, ok := other.(*ssa.UnOp); ok {
-			if fa, ok := ld.X.(*ssa.FieldAddr); ok {
-				kvVal = fa.X
-			}
-		}
-		ph, isPhi := kvVal.(*ssa.Phi)
-		if !isPhi {
-			if kvVal != nil && an.FieldOfLoad(kvVal) == vtTree {
+	}
+	// every place in Open (and the helpers split out of it) that takes the live table's tree does so
+	// on the nil side of a test of fromVer
+	for _, f := range sc.Funcs {
+		for _, b := range f.Blocks {
+			for _, in := range b.Instrs {
+				ld, ok := in.(*ssa.UnOp)
+				if !ok || ld.Op != token.MUL || an.FieldOfLoad(ld) != vtTree {
+					continue
+				}
 				found = true
-				c.R.Bad(rule, "(*sqlite.ChangesTable).Open: live table as 'from' only when fromVer is nil", c.P.Pos(call.Pos()), "the diff is always taken against the live table")
+				g := an.GuardedByNilTest(an.Edge{From: b}, func(v ssa.Value) bool { return an.FieldOfLoad(v) == fromVer }, true)
+				c.R.Cond(g, rule, "(*sqlite.ChangesTable).Open: live table as 'from' only when fromVer is nil", c.P.Pos(ld.Pos()),
+					"the live table stands in only for an absent from", "the live table is used as 'from' on a path not decided by 'fromVer == nil': from='[]' (empty table) would be diffed against the current contents and report nothing")
 			}
-			continue
 		}
-		for i, e := range ph.Edges {
-			if an.FieldOfLoad(e) != vtTree {
-				continue
-			}
-			found = true
-			g := an.GuardedByNilTest(an.Edge{From: ph.Block().Preds[i], To: ph.Block()}, func(v ssa.Value) bool { return an.FieldOfLoad(v) == fromVer }, true)
-			c.R.Cond(g, rule, "(*sqlite.ChangesTable).Open: live table as 'from' only when fromVer is nil", c.P.Pos(call.Pos()),
-				"the live table stands in only for an absent from", "the live table is used as 'from' on a path not decided by 'fromVer == nil': from='[]' (empty table) would be diffed against the current contents and report nothing")
-		}
+	}
+	if !startsDiff {
+		found = false
 	}
 	if !found {
 		c.R.Unk(rule, "(*sqlite.ChangesTable).Open: live table as 'from' only when fromVer is nil", c.P.Pos(co.Pos()), "cannot find where the live table is chosen as the diff base")
